@@ -17,6 +17,9 @@ def main():
     recvlib.mc_receiver(ctx, "ok", 5)
     for variant, expect in sorted({x for v in recvlib.MC_RX_VARIANTS.values() for x in v}):
         recvlib.mc_receiver(ctx, variant, 5, expect)
+    recvlib.mc_system(ctx, "ok")
+    for variant, expect in sorted({x for v in recvlib.SYSTEM_VARIANTS.values() for x in v}):
+        recvlib.mc_system(ctx, variant, expect)
     ctx.cleanup()
     print("warm ok:", fams)
 main()
